@@ -165,11 +165,21 @@ CLAIMS = {
          "expression with an assumed result; std contracts of HashMap::entry().or_insert_with, slice::ends_with and the "
          "filter/filter_map/collect chain (closure bodies are spliced verbatim into a hand-written composing loop); signature substitution for impl IntoIterator/AsRef<str> parameters.",
          "Verus data-structure invariant + abstract view on the mechanically extracted real functions", "8.8/C17"),
+ "C09": ("proof",
+         "Verus proofs on the thread-lifecycle arms of the real Tracer::apply_new_status (spliced each run: the Exited arm and the "
+         "PTRACE_EVENT_EXEC / CLONE / STOP / EXIT arm) against a ghost thread table: a thread announced by a clone or stop event is in "
+         "the debugger's thread list afterwards and nobody else is added; an exiting thread leaves it; every thread that enters the "
+         "list through such an event receives the watchpoint image; the program's exit is reported exactly when the main thread exits, "
+         "with its code. Scope: ONLY this bookkeeping ('the thread list equals the kernel's list' for one event at a time); all-stop "
+         "(group_stop_interrupt), exactly-once reporting of arrivals per thread and every interleaving question of the property are NOT covered: "
+         "they are kernel-scheduling properties outside contract-based verification (no concurrency in Kani, no permission types in the real code).",
+         "TraceeCtl add/remove/tracee_mut are assumed std-HashMap contracts on a ghost set; ptrace event codes typed from ptrace(2); "
+         "distribution of watchpoints is tracked by a local ghost set at the call sites.",
+         "Verus contracts on mechanically spliced match arms of the real function", "8.11/C09"),
 }
 
 NA = {
  "C03": "step semantics are defined relative to the debuggee's real instruction trace and call depth; no function on the path has a postcondition expressible without the debuggee's execution semantics",
- "C09": "all-stop / exactly-once over thread interleavings is a kernel scheduling property; Kani has no concurrency, Verus would need permission types threaded through unchangeable code, and per-thread state lives in a std HashMap (out of CBMC's reach)",
  "C20": "decoding of tokio-internal layouts through DQE evaluation on a live process; nothing algorithmic of its own to put under contract",
 }
 
